@@ -968,7 +968,9 @@ def explore(ctx, d, cfg, lines, impl, has_post=True):
         pv = cap["solution"][nfv:nfv + int(wv.grid.num_cells)]
         # the NaN marker of the post-processing; any other non-finite pressure is judged by the per-run oracle, not here
         marker = cap.get("pp_failed") and not np.any(np.isfinite(pv))
-        ptag = "nan" if marker else (sol_tag if sol_tag is not None else "other")
+        # a NaN marker WITHOUT an injected post-loop fault is the genuine singular post-processing (known finding, judged and
+        # reported by the per-run oracle): the loop model has no event for it, so it is kept out of this correspondence
+        ptag = "nan" if (marker and "post" in ev) else (sol_tag if sol_tag is not None else "other")
         impl.append(f"{int(conv)} {nit if nit is not None else 'none'} {dist_tag if dist_tag is not None else 'other'} "
                     f"{sol_tag if sol_tag is not None else 'other'} {int(bool(evl) and (evl[-1].startswith('f:') or evl[-1] == 'nan' or (evl[-1].startswith('ok1') and len(evl) - 1 > 1)))} {ptag}")
         if fault is not None and fault[0] == "post" and clean_cap is not None:
